@@ -34,6 +34,12 @@ theorem CScript.run_bind {α β : Type} (E : CEnv) (x : CScript α) (f : α → 
     cases o with
     | none => exact ih _ _
     | some r => exact ih _ _
+  | pruned k ih =>
+    intro o
+    simp only [CScript.bind, CScript.run]
+    cases o with
+    | none => exact ih _ _
+    | some r => exact ih _ _
 
 @[simp] theorem CM.run_bind {α β : Type} (E : CEnv) (x : CM α) (f : α → CM β) (o : Option Once) :
     CM.run E (x >>= f) o =
